@@ -107,8 +107,10 @@ PROPS = {
         technique="explicit-state BFS over all interleavings of application steps (the real IoUring methods, via hook H1) and simulated kernel steps, from every start value of the ring counters incl. wrap; invariants on every state; bound to the code's set-up by real-kernel rings for every entry-size flag x size x batch sequence, and by a fat-LTO busy-polling reaper",
         steps=[_s("h-ring", None, name="ring"), _s("h-ring", None, name="ring-nochk", profile="nochk"), _s("h-uring", "ringflags", name="real-rings"),
                _s("h-uring", "poll", bin="h-uring-poll", profile="ltofat", name="polling-reaper-ltofat"),
-               _s("h-uring", "spin", bin="h-uring-spin", profile="ltofat-abort", name="straight-line-program-ltofat-abort")],
+               _s("h-uring", "spin", bin="h-uring-spin", profile="ltofat-abort", name="straight-line-program-ltofat-abort"),
+               _s("h-ring-wm", None, name="weak-memory-handover")],
         assumptions=["kernel side simulated at call granularity (consume 1/all, post 1/all); the index array is the identity as set up by setup_io_uring",
+                     "weak-memory step: the ring hand-over methods (needs_wakeup, get_next_sqe_slot, flush_submission_queue, get_next_cqe) are cut verbatim out of rusl's io_uring.rs by item boundaries (a missing item fails the build) and compiled against the instrumented atomics of engine E1; application thread + a poller thread following the kernel's io_sq_thread protocol; every schedule within P 2-3 and W 2 stale reads (store buffering), SeqCst fences modelled as AcqRel RMWs of one common word",
                      "polling-reaper step (fat-LTO build): an application that busy-polls get_next_cqe / get_next_sqe_slot with no system call in the loop must observe an asynchronous completion / freed slot: binds 'the ring words are read with real atomics' to what the optimiser may do (compiler-dependent, this toolchain only)",
                      "real-rings step: rings made by the real setup_io_uring for every entry-size flag combination (with and without SQPOLL), sizes 1..8, every start slot x every sequence of batch lengths, NOP entries against the real kernel: binds the model's set-up assumption (identity index array, entry sizes) to the code",
                      "bounded by 2*entries+6 application operations per state space; ring sizes 1,2,4 (thorough: 8)"],
@@ -163,7 +165,7 @@ PROPS = {
     "C18": dict(
         level="exploration",
         technique="bounded-exhaustive enumeration of every batch (sequence) up to a length bound over a 42-symbol operation alphabet, independent / soft- / hard-linked, per ring size and accepted flag set, optional-argument combinations, socket address kinds, through the real wrapper on the real kernel, differential against direct system calls; exported constants against the kernel headers; ring teardown observed through the syscall seam",
-        steps=[_s("h-uring", "ops"), _s("h-uring", "drop")],
+        steps=[_s("h-uring", "ops"), _s("h-uring", "drop"), _s("h-uring", "sqebytes", bin="h-uring-poll", profile="o0", name="sqe-bytes-o0")],
         assumptions=["reference = direct libc calls in a twin directory / twin sockets; kernel link-severing rules learned through a raw ring and modelled in the reference",
                      "batches <= 3 (thorough 4), rings <= 8; index wrap is C17's concern"],
     ),
